@@ -33,7 +33,9 @@ type Plan struct {
 	Tape      []int             `json:"tape,omitempty"`
 	SchedSeed uint64            `json:"schedSeed,omitempty"`
 	LockYield int               `json:"lockYield,omitempty"`
-	Sticky    int               `json:"sticky,omitempty"`
+	// UnlockYield: per-mille probability that a lock release is a scheduling point (default 0).
+	UnlockYield int `json:"unlockYield,omitempty"`
+	Sticky      int `json:"sticky,omitempty"`
 	// Pct > 0: priority scheduling with Pct-1 priority change points within
 	// the first PctHorizon decisions (see simcore.Sched.Pct)
 	Pct        int `json:"pct,omitempty"`
